@@ -270,7 +270,14 @@ def run(run, tier, seed):
                 names = ["t%d_%d" % (li, i) for i in range(ns)]
                 sb.reset()
                 ref = os.path.join(sb.dir, "ref%d.fa" % li)
-                vlib.write_fasta(ref, [anc], names=["anc"])
+                refseq = anc
+                if li % 2 == 1:
+                    # a reference that repeats a stretch of itself twice more (a short duplicated element): variant groups
+                    # overlapping it collect votes for three offsets, two of them with equal counts
+                    a = rng.randint(0, max(0, len(anc) - (k + 40)))
+                    seg = anc[a:a + k + rng.randint(10, 40)]
+                    refseq = anc + gen.rand_seq(rng, 5) + seg + gen.rand_seq(rng, 7) + seg
+                vlib.write_fasta(ref, [refseq], names=["anc"])
                 e = sb.build("lo%d" % li, recs, names, k, True)
                 if not e.get("ok"):
                     continue
